@@ -61,3 +61,18 @@ for k in ("denied", "disconnect", "keepalive", "challenge_a", "challenge_b", "ch
 L("rt_challenge_token", props=["C16", "C05"], functions="Packet::generate_challenge, ChallengeToken::{write, read, decode}",
   claim="challenge token seals exactly (client id, user data) under the challenge key / sequence and decodes to them", bound="all ids, user data witnessed at one offset", **PK)
 L("enc_witness", props=["C13", "C16"], expect="fail", functions="-", claim="vacuity witness", **PK)
+
+# --------------------------------------------------------------------------------------------
+# renet: slice constructor (C03, C06)
+SC = dict(crate="renet", file="channel/slice_constructor.rs", variant={"bytes": "vec", "cap": 2, "qcap": 2})
+for nm in ("n1_l1", "n2_l1", "n2_l1200", "n2_l1201", "n3_l1199", "n3_l1200", "n2_l0"):
+    L("sc_hostile_" + nm, props=["C06"], functions="SliceConstructor::process_slice",
+      claim="any slice index (any usize) and any received-flag state: returns normally, out-of-range index never accepted",
+      bound="constructor of %s slices, payload length %s (concrete per instance), index and flags symbolic" % (nm[1], nm.split("_l")[1]), **SC)
+L("sc_witness", props=["C06", "C03"], expect="fail", functions="-", claim="vacuity witness", **SC)
+for nm in ("1201_0", "1201_0d", "1201_1", "1201_1d", "2400_0", "2400_0d", "2400_1", "2399_1", "2401_2", "3600_1", "3600_1d", "3600_2"):
+    L("sc_step_" + nm, props=["C03", "C01", "C02"], functions="SliceConstructor::process_slice",
+      tier="quick" if nm in ("1201_1", "1201_0d", "2400_0", "2400_1", "3600_1") else "thorough",
+      claim="genuine slice: completes only when all slices are in, output length == |M| and output byte == M byte at every offset (witness); duplicates change nothing",
+      bound="message length %s, slice index %s (concrete per instance; suffix d = last slice already received); content, other received flags, witness offset symbolic" % tuple(nm.split("_")), **SC)
+L("sc_init", props=["C03"], functions="SliceConstructor::new", claim="fresh constructor satisfies its invariant", bound="3 slices", **SC)
